@@ -289,3 +289,98 @@ func fromCacheRead(v ssa.Value, fn *ssa.Function, ci *cacheInfo) bool {
 	}
 	return rec(v, 0)
 }
+
+// L-LEAK: an exported function does not hand out memory of a package-level variable: a returned
+// slice / map / pointer whose provenance is a global lets any caller modify state shared by the
+// whole process (precomputed tables, default parameters).
+func globalLeaks(p *Program, fns []*ssa.Function) (int, []Finding) {
+	var hits []Finding
+	n := 0
+	for _, fn := range fns {
+		if fn.Parent() != nil || fn.Object() == nil || !fn.Object().Exported() || fn.Blocks == nil {
+			continue
+		}
+		if recv := fn.Signature.Recv(); recv != nil {
+			if nm := namedName(recv.Type()); nm == "" || !types.NewVar(0, nil, nm, nil).Exported() {
+				continue
+			}
+		}
+		res := fn.Signature.Results()
+		any := false
+		for i := 0; i < res.Len(); i++ {
+			if reachesPointerAny(res.At(i).Type()) {
+				any = true
+			}
+		}
+		if !any {
+			continue
+		}
+		n++
+		for _, b := range fn.Blocks {
+			ret, ok := b.Instrs[len(b.Instrs)-1].(*ssa.Return)
+			if !ok {
+				continue
+			}
+			for i, r := range ret.Results {
+				if !reachesPointerAny(res.At(i).Type()) {
+					continue
+				}
+				// values to examine: the result itself, or — for an array / struct built in a local —
+				// the pointer-like values stored into that local
+				vals := []ssa.Value{r}
+				if ld, ok := r.(*ssa.UnOp); ok {
+					if a := allocRoot(ld.X, 0); a != nil {
+						vals = nil
+						var addrs []ssa.Value
+						var derived func(v ssa.Value, d int)
+						derived = func(v ssa.Value, d int) {
+							if d > 6 || v.Referrers() == nil {
+								return
+							}
+							addrs = append(addrs, v)
+							for _, rr := range *v.Referrers() {
+								switch x := rr.(type) {
+								case *ssa.FieldAddr:
+									derived(x, d+1)
+								case *ssa.IndexAddr:
+									derived(x, d+1)
+								}
+							}
+						}
+						derived(a, 0)
+						for _, ad := range addrs {
+							// a component stored into an unexported field of the result cannot be reached by
+							// a caller outside the package
+							if fa, ok := ad.(*ssa.FieldAddr); ok {
+								if fn2 := fieldName(fa.X.Type(), fa.Field); fn2 != "" && !types.NewVar(0, nil, fn2, nil).Exported() {
+									continue
+								}
+							}
+							for _, rr := range *ad.Referrers() {
+								if st, ok := rr.(*ssa.Store); ok && st.Addr == ad && reachesPointerAny(st.Val.Type()) {
+									vals = append(vals, st.Val)
+								}
+							}
+						}
+					}
+				}
+				var roots []Root
+				for _, v := range vals {
+					roots = append(roots, rootsOfSlice(v)...)
+				}
+				for _, root := range roots {
+					if root.Kind == "global" && root.Glob != nil {
+						// sync primitives, error values and immutable singletons are not data
+						t := root.Glob.Type().(*types.Pointer).Elem()
+						if isErrorType(t) || namedPkg(t) == "sync" {
+							continue
+						}
+						hits = append(hits, Finding{fn, ret.Pos(), fmt.Sprintf("result#%d-not-a-global(%s)", i, root.Glob.Name()),
+							fmt.Sprintf("%s: result #%d is (part of) the package-level variable %s: a caller that modifies what it received modifies the state every later call in the process uses", funcKey(fn), i, root.Glob.Name())})
+					}
+				}
+			}
+		}
+	}
+	return n, hits
+}
